@@ -22,7 +22,7 @@ RULE = ("(a) documents written from a random tree model by an independent writer
         "<br></br> at random (also with blanks inside the tags), non-void empty elements as <p></p> or <p/>, tag and "
         "attribute names in random case, attribute values double-/single-/un-quoted or absent, duplicates, text "
         "characters literal or as decimal / hex / named references (with and without ';'), comments, CDATA, doctype, "
-        "marked sections, processing instructions, script/style raw text, pre/textarea, ruby/template containers, "
+        "marked sections, processing instructions (content empty and whitespace-only included), script/style raw text, pre/textarea, ruby/template containers, "
         "random whitespace and newlines; (b) exhaustive: every concatenation of <= 4 (quick) / <= 5 (thorough) pieces "
         "of {<br>, <br/>, </br>, <p>, </p>, <p/>, x, blank, <!--c-->}; (c) malformed: token soup and character-level "
         "mutations of (a); each under 9 builder configurations (default; on_duplicate_attribute replace / ignore / "
@@ -413,8 +413,8 @@ def oracle_fold(hevs, c, orig=None):
             return
         text = "".join(pending)
         del pending[:]
-        if not any(n.name in c["pw"] for n in stack) and all(ch in SPACES for ch in text):
-            text = "\n" if "\n" in text else " "
+        if not cls and not any(n.name in c["pw"] for n in stack) and all(ch in SPACES for ch in text):
+            text = "\n" if "\n" in text else " "          # whitespace-only TEXT collapses; special strings keep their content
         if not cls:
             cls = 0
             for n in reversed(stack):
@@ -516,9 +516,9 @@ def ok_cdata(s):
 
 def gen_special_text(rng, ok):
     while True:
-        s = "".join(rng.choice(["a", "b c", " ", "\n", "-", "<", "&amp;", "é", "]", "x", "=", "\"", "'", "/", "!", "?"])
-                    for _ in range(rng.randint(1, 5)))
-        if s.strip(SPACES) and ok(s):
+        s = "".join(rng.choice(["a", "b c", " ", " ", "\n", "\t", "-", "<", "&amp;", "é", "]", "x", "=", "\"", "'", "/", "!", "?"])
+                    for _ in range(rng.choice([0, 1, 1, 2, 3, 4, 5])))
+        if ok(s):
             return s
 
 
@@ -848,40 +848,6 @@ def mutate(rng, s):
 
 
 # ------------------------------------------------------------------ the checks
-def ws_special_finding(f):
-    """Known finding C04-ws-special-string: the only difference between the parsed tree and the generating tree is
-    that a comment / CDATA / doctype / declaration / processing instruction whose content is empty or ASCII
-    whitespace only came out as a single blank or newline."""
-    if f.get("tag") != "writer":
-        return False
-    return bool((f.get("case") or {}).get("only_ws_special"))
-
-
-KNOWN_MATCHERS = {"ws_special_string": ws_special_finding}
-
-
-def diff_only_ws_special(got, exp):
-    """True iff got and exp are equal except for special strings (class 1,2,4,5,6) whose expected content is empty or
-    whitespace-only and whose observed content is its collapsed form."""
-    found = [False]
-
-    def eq(a, b):
-        if a[0] != b[0]:
-            return False
-        if a[0] == "str":
-            if a == b:
-                return True
-            if a[1] == b[1] and b[1] in (1, 2, 4, 5, 6) and all(ch in SPACES for ch in b[2]):
-                if a[2] == ("\n" if "\n" in b[2] else " "):
-                    found[0] = True
-                    return True
-            return False
-        if a[:-1] != b[:-1] or len(a[-1]) != len(b[-1]):
-            return False
-        return all(eq(x, y) for x, y in zip(a[-1], b[-1]))
-    return eq(got, exp) and found[0]
-
-
 class Batch:
     """Cases are collected, the model is run once per batch."""
 
@@ -945,8 +911,7 @@ def check_batch(ctx, items):
         if doc is not None:
             exp1 = expected_tree(doc, c)
             if nop != exp1:
-                fcase = dict(case, only_ws_special=diff_only_ws_special(nop, exp1))
-                ctx.fail(fcase, "tree differs from the tree the markup describes (generating model)",
+                ctx.fail(case, "tree differs from the tree the markup describes (generating model)",
                          repr(nop)[:1500], repr(exp1)[:1500], tag="writer")
         henc = [enc_hev(h) for h in log.hevs]
         acfg = enc_acfg(c, orig_table(orig) if orig else None)
@@ -1174,9 +1139,9 @@ def run(ctx):
             # (c) mutations of it
             if i % 2 == 0:
                 b.add(c, mutate(rng, markup), "mutated")
-    # whitespace-only / empty special strings (the open known finding), a small dedicated batch
+    # empty / whitespace-only special strings keep their content (fixed defect 3cf9718): witnesses, with their documents
     for m, d in WS_SPECIAL:
-        b.add(CONFIG["default"], m, "written", doc=d)
+        b.add(CONFIG["default"], m, "corpus", doc=d)
     # (c) token soup
     for i in range(30000 if ctx.thorough else 2500):
         c = CONFIGS[i % len(CONFIGS)]
@@ -1197,13 +1162,10 @@ def run(ctx):
 
 WS_SPECIAL = [("<!---->", [["comment", ""]]), ("<p><!--  --></p>", [["elem", "p", [], [["comment", "  "]]]]),
               ("<![CDATA[]]>", [["cdata", ""]]), ("<![CDATA[ \n ]]>x", [["cdata", " \n "], ["text", "x"]]),
-              ("<!--\n\n-->", [["comment", "\n\n"]]), ("<? >", [["pi", " "]]), ("<!DOCTYPE >", [["doctype", ""]])]
-
-
-def replay_known(ctx, k):
-    w = k.get("witness", {})
-    soup = parse_plain(w.get("markup", "<!---->"), {})
-    return strip_pos(impl_shape(soup)) != expected_tree(w.get("doc", [["comment", ""]]), CONFIG["default"])
+              ("<!--\n\n-->", [["comment", "\n\n"]]), ("<? >", [["pi", " "]]), ("<?>", [["pi", ""]]),
+              ("<!DOCTYPE >", [["doctype", ""]]), ("<!DOCTYPE  \n>", [["doctype", " \n"]]), ("<![if ]>", [["decl", "if "]]),
+              ("a <!-- --> b", [["text", "a "], ["comment", " "], ["text", " b"]]),
+              (" <!--\t--> ", [["text", " "], ["comment", "\t"], ["text", " "]])]
 
 
 def replay(ctx, data):
